@@ -85,11 +85,13 @@ def work(tasks, idx):
         else:  # CBOR helpers on arbitrary bytes
             _, seed, n = t
             rng = common.Rng(seed)
-            from .C11 import exotic_cbor
-            for _ in range(n):
+            from .C11 import exotic_cbor, tagged_all
+            stream = list(tagged_all()) if n < 0 else [None] * n        # n < 0: every semantic tag over every payload, once
+            for b in stream:
                 # random bytes, and CBOR that the decoder handles through special paths (semantic tags over wrongly typed
                 # content, bignums, huge lengths, ...): whatever the helper refuses, it refuses with the library's exception
-                b = rng.bytes_(rng.randrange(0, 24)) if rng.random() < 0.4 else exotic_cbor(rng)
+                if b is None:
+                    b = rng.bytes_(rng.randrange(0, 24)) if rng.random() < 0.4 else exotic_cbor(rng)
                 code = corr.code_outcome(lambda: encode_cbor(parse_cbor(b)), lambda r: r.hex())
                 res.evaluations += 1
                 tie.check({"op": "cbor_roundtrip", "b": b.hex()}, code, label=["cbor"])
@@ -133,6 +135,7 @@ def run(ctx, res):
             tasks.append(("reg", fmt, rng.choice(choices), tuple(rng.sample([f for f in attest.applicable(fmt) if f not in attest.MALFORMED], 2)), ()))
     for i in range(16):
         tasks.append(("cbor", ctx.seed * 31 + i, 200 if ctx.quick() else 5000))
+    tasks.append(("cbor", 0, -1))
     for kind in ("reg", "auth"):
         tasks.append(("json", (kind, 0, -1)))
         for i in range(4):
